@@ -208,6 +208,19 @@ def _stack_methods(root):
         return []
 
 
+def use_result(st):
+    """every read-only use of an extraction result"""
+    try:
+        str(st)
+        st.format(ascii_only=True, show_hidden_frames=True)
+        st.format_flat(show_contexts=True)
+        st.as_stdlib_summary(show_contexts=True, show_hidden_frames=True)
+        for f in st.frames:
+            (f.clsname, f.modname, f.funcname, f.linetext, f.filename)
+    except Exception:
+        pass
+
+
 def retention_check(do_extract, tracked, where, compare_equal=True):
     """C06: after one warm-up extraction in this very state, further extractions must leave the reference
     counts of the managers / the target / its frame / the bound methods on its value stack unchanged once
@@ -221,6 +234,7 @@ def retention_check(do_extract, tracked, where, compare_equal=True):
 
     def pair():
         r1 = do_extract()
+        use_result(r1)      # reading a result (printing it, summarising it) is not a change of the target either
         r2 = do_extract()
         if r1.error is not None or r2.error is not None:
             return True
@@ -328,7 +342,10 @@ def _injection_sweep(frame, obj, nxt, where):
         sys.settrace(None)
     total = state["n"]
     S.bump("inject.line_points", total)
-    stride = max(1, total // S.inject_max)
+    # (bounded work: for the few programs with thousands of instructions before the body the analysis has tens of
+    # thousands of line events, each faulted run traces up to all of them - fewer fault points there)
+    nmax = S.inject_max if total <= 4000 else max(3, S.inject_max * 4000 // total)
+    stride = max(1, total // nmax)
     start = 1 + (S.inject_phase % stride)
     for k in range(start, total + 1, stride):
         state = {"n": 0, "fired": None}
@@ -885,7 +902,8 @@ class R:
         if self.p.get("extarg"):
             self.emit(1, "'''Docstring, so that None is not among the first 256 constants.'''")
             self.emit(1, "s = 'A' * 400")
-            self.emit(1, "big = [%s]" % ", ".join("s[%d]" % i for i in range(300)))
+            for _ in range({1: 1, 2: 8, 3: 15}.get(int(self.p["extarg"]), 1)):
+                self.emit(1, "big = [%s]" % ", ".join("s[%d]" % i for i in range(300)))
         cl = self.p.get("closure", 0)
         if cl in (1, 3):
             self.emit(1, "fns_ = [(lambda: item_) for item_ in (1, 2)]")
